@@ -132,8 +132,8 @@ PROPS["C10"] = {
 # Go functions translated on this run (coq/Gen/Src*.v, by tools/globalsgen srcgen.go) equal the model's functions
 SOURCE_TIE = {
     "C01": ("C01_source", "jwt.Decode with loadClaims and parseHeaders (accepts exactly what the model's decode accepts, same kind and issuer), ClaimsData.verify, identifier.Version"),
-    "C02": (["C02_source", "C02_source_encode"], "the six typed decoders (each against the model's decode_typed), identifier.Kind; on the Encode side ClaimsData.doEncode's role rule and every kind's Encode (refusing whenever the model's encode_gate refuses)"),
-    "C05": (["C05_source", "C05_source_encode"], "Header.Valid, parseHeaders, loadClaims; on the Encode side ClaimsData.doEncode (version-2 algorithm only, three segments, signature over header-dot-claims)"),
+    "C02": (["C02_source", "C02_source_encode", "C02_source_prefixes"], "ExpectedPrefixes() of the seven kinds (a fresh list of constants, equal to the generated role table); the six typed decoders (each against the model's decode_typed), identifier.Kind; on the Encode side ClaimsData.doEncode's role rule and every kind's Encode (refusing whenever the model's encode_gate refuses)"),
+    "C05": (["C05_source", "C05_source_encode", "C05_source_codec"], "decodeString / encodeToString / serialize of both packages (the unpadded base64url codec and json.Marshal, nothing around them) and the updateVersion of the six typed kinds; Header.Valid, parseHeaders, loadClaims; on the Encode side ClaimsData.doEncode (version-2 algorithm only, three segments, signature over header-dot-claims)"),
     "C06": (["C06_source", "C06_source_imports", "C06_source_exports", "C06_source_limits", "C07_source_results"], "Subject.countTokenWildcards, Subject.Validate, ServiceLatency.Validate, Export.Validate (with the Export kind / response-type predicates); Imports.Validate (the walk over the import list with its set of delivery subjects, every pair compared both ways) against the model's v_imports; Exports.Validate with its overlap scan isContainedIn (one blocking issue per distinct containing subject) against the model's v_exports / v_overlaps; OperatorLimits.Validate (tiers versus flat JetStream limits, blank tier names) against v_op_limits; and the validation results themselves (Properties/C07_source_results.v)"),
     "C07": (["C07_source", "C07_source_results"], "the validation results themselves - CreateValidationResults, Add, AddError, AddWarning, AddTimeCheck, IsBlocking, IsEmpty, Errors, Warnings of both packages (a results object is its list of issues: nothing dropped, capped, replaced or shared) - and ClaimsData.Validate (v2 and v1compat), the time checks every kind delegates to"),
     "C08": ("C08_source", "OperatorClaims.DidSign and AccountClaims.DidSign"),
